@@ -423,12 +423,14 @@ def run_check(prop, units, tier, seed, level, technique_text, trusted_base, repl
             reported.add(fid)
             desc = next((f["what"] for f in open_f if f["id"] == fid), "")
             lines.append("KNOWN-FINDING: property=%s %s: %s (obligation %s)" % (prop, fid, desc, o["name"]))
-    if exit_code == 0 and errors:
-        exit_code = 3
+    if errors:
+        if exit_code == 0:
+            exit_code = 3
         for r in errors:
             lines.append("CHECKER-ERROR property=%s unit=%s %s" % (prop, r.get("unit"), r["error"]))
-    if exit_code == 0 and (undecided or unknown):
-        exit_code = 2
+    if undecided or unknown:
+        if exit_code == 0:
+            exit_code = 2
         for r in undecided:
             lines.append("UNDECIDED property=%s unit=%s reason=%s" % (prop, r["unit"], r["undecided"]))
         for o in unknown[:10]:
